@@ -234,17 +234,21 @@ class Monitor:
         self.begun[s].append(L)
 
     def own_control(self, cause, s, Lp, seen):
-        if cause[0] in ("initial", "none"):
-            return False
-        _, x, Lx = cause
-        if x == s and Lx >= Lp:
-            return True
-        if (x, Lx) in seen:
-            return False
-        seen.add((x, Lx))
-        cs = self.causes[x].get(Lx, [])
-        # every cause of the intermediate step need not be own; one chain suffices for that hop
-        return any(self.own_control(c, s, Lp, seen) for c in cs)
+        # iterative (cause chains are as long as the run: a thousand steps in the long runs)
+        stack = [cause]
+        while stack:
+            cause = stack.pop()
+            if cause[0] in ("initial", "none"):
+                continue
+            _, x, Lx = cause
+            if x == s and Lx >= Lp:
+                return True
+            if (x, Lx) in seen:
+                continue
+            seen.add((x, Lx))
+            # every cause of the intermediate step need not be own; one chain suffices for that hop
+            stack.extend(self.causes[x].get(Lx, []))
+        return False
 
     def check_inputs(self, s, L, inputs):
         exp = {}
